@@ -147,6 +147,16 @@ def fmt_env(env):
     return 'set: ' + ', '.join(ones)
 
 
+def ub_note(rec):
+    """a shift whose (concrete) amount is not smaller than the operand width was executed in this world: undefined
+    behaviour in C, poison in the IR - the value the hardware produces is not the one the arithmetic intends"""
+    for n in rec.get('notes', ()):
+        if n[0] == 'shift-out-of-range':
+            l = n[4]
+            return '%s by %d of a %d-bit operand at %s:%s' % (n[1], n[2], n[3], rel(l[0]) if l else '?', l[1] if l else '?')
+    return None
+
+
 def compare_vec(actual, expected, w):
     """-> (status, info): 'eq' | 'differs' (index, witness) | 'unknown' (index)."""
     a = B.to_bits(actual, w)
@@ -346,7 +356,13 @@ def _judge_getter_world(ctx, f, fld, fmt, base, where, R, rec, issues, out):
                        '%s: result bit %d of field %s.%s is %s, the wire format says %s; witness buffer: %s'
                        % (where, i, fmt, fld['name'], B.fmt_term(a), B.fmt_term(exp[i]), fmt_env(wit))))
     elif st == 'unknown':
-        issues.append(('C01', 'undecided', base, '%s: result bit %d could not be determined' % (where, info)))
+        ub = ub_note(rec)
+        if ub:
+            issues.append(('C01', 'violation', base + ':undefined-shift',
+                           '%s: result bit %d of field %s.%s is produced by undefined behaviour on this target: %s'
+                           % (where, info, fmt, fld['name'], ub)))
+        else:
+            issues.append(('C01', 'undecided', base, '%s: result bit %d could not be determined' % (where, info)))
     if p['writes'] or p['unknown_write']:
         issues.append(('C01', 'violation', base + ':writes',
                        '%s: reading field %s.%s writes PDU octets %s' % (where, fmt, fld['name'], p['writes'])))
@@ -459,7 +475,13 @@ def _judge_setter_world(ctx, f, fld, fmt, base, where, P, rec, issues, out):
                           'inside the field' if inside else 'outside the field: must keep its previous content',
                           fmt_env(wit))))
     elif unk:
-        issues.append(('C02', 'undecided', base, '%s: octet %d bit %d could not be determined' % ((where,) + unk)))
+        ub = ub_note(rec)
+        if ub:
+            issues.append(('C02', 'violation', base + ':undefined-shift',
+                           '%s: after writing %s.%s, octet %d bit %d is produced by undefined behaviour on this target: %s'
+                           % (where, fmt, fld['name'], unk[0], unk[1], ub)))
+        else:
+            issues.append(('C02', 'undecided', base, '%s: octet %d bit %d could not be determined' % ((where,) + unk)))
     fe = foreign_effects(rec)
     if fe:
         issues.append(('C16', 'violation', base + ':foreign',
@@ -628,3 +650,16 @@ def judge_init_null(ctx, f, fname, extra_args=None, legacy=False):
                            '%s: with a null PDU the legacy initialiser returns %r instead of -EINVAL'
                            % (where, rec['ret'])))
     return out
+
+
+def accessor_functions(ctx, which):
+    """names of the entry points of one kind over all formats"""
+    out = []
+    for f in ctx.spec['formats']:
+        if which in ('get', 'all'):
+            out.append(f['get_field'])
+            out += [x['getter'] for x in f['fields'] if x.get('getter')]
+        if which in ('set', 'all'):
+            out.append(f['set_field'])
+            out += [x['setter'] for x in f['fields'] if x.get('setter')]
+    return [x for x in out if x]
